@@ -84,7 +84,12 @@ class Prog:
 
 @_st.composite
 def data_stmt(draw):
-    k = draw(_st.integers(0, 5))
+    k = draw(_st.integers(0, 7))
+    if k == 6:
+        return ".asciiz \"%s\"" % draw(_st.text(alphabet="abcdefXYZ 0123", min_size=0, max_size=10))
+    if k == 7:
+        return ".asciiz \"%s\", \"%s\"" % (draw(_st.text(alphabet="abcXYZ", min_size=1, max_size=4)),
+                                          draw(_st.text(alphabet="0123 ", min_size=0, max_size=4)))
     if k == 0:
         return ".db " + ", ".join(str(draw(_st.integers(0, 255))) for _ in range(draw(_st.integers(1, 6))))
     if k == 1:
@@ -179,9 +184,32 @@ def structured_program(draw, pools, cpus=None, align_data=True, repeats=True):
     return p
 
 
-def make_pools(worker, cpus, want=25, seed=7):
+# statements that expand to several instructions / several words (pseudo instructions)
+MULTIWORD = {
+    "mips": ["li $t0, 0x12345678", "li $s1, 0xfedc8765", "la $t1, lbl_end", "li $t2, 0x10000"],
+    "riscv": ["li t0, 0x12345678", "li a0, 0x7fedc123", "la t1, lbl_end"],
+    "msp430": ["mov.w #0x1234, &0x0200", "add.w 2(r5), 4(r6)"],
+    "68000": ["move.l #0x12345678, (0x1000).l", "add.l #0x10000, d1"],
+    "arm": ["ldr r0, =0x12345678"],
+    "z80": ["ld (ix+5), 0x12", "ld bc, 0x1234"],
+    "avr8": ["lds r16, 0x1234", "call 0x1234"],
+    "6809": ["ldd #0x1234", "lda [0x1234]"],
+    "epiphany": ["mov r0, #0x1234", "movt r0, #0x5678"],
+    "xtensa": ["l32r a2, lbl_end"],
+}
+
+
+def make_pools(worker, cpus, want=25, seed=7, multiword=False):
     import random as _r
     pools = {}
     for c in cpus:
         pools[c] = validated_pool(worker, c, _r.Random(seed * 1000 + sum(map(ord, c))), want=want)
+        if multiword and pools[c]:
+            for t in MULTIWORD.get(c, []):
+                try:
+                    r = worker.asm(".%s\n%s\nlbl_end:\n" % (CPU_FILES.get(c, c), t))
+                except Exception:
+                    continue
+                if r.ok and r.image:
+                    pools[c] += [t, t]          # weighted
     return pools
